@@ -8888,6 +8888,18 @@ let rec wait_yn u cfg fuel c =
              ebind (next_cmd u cfg f false) (fun c' -> wait_yn u cfg f c')))
      | _ -> ebind (next_cmd u cfg f false) (fun c' -> wait_yn u cfg f c'))
 
+(** val list_span_step : uData -> config -> nat -> str list -> unit e **)
+
+let list_span_step u cfg start cands =
+  ebind eget (fun s ->
+    match lcp_all cands with
+    | Some lcp ->
+      if (||) (Nat.ltb (sub s.e_line.pos start) (blen lcp))
+           (Nat.eqb (length cands) (S O))
+      then ebind (completer_update u start lcp) (fun _ -> refresh_line u cfg)
+      else eret ()
+    | None -> eret ())
+
 (** val complete_line : uData -> config -> nat -> cmd option e **)
 
 let complete_line u cfg fuel =
@@ -8902,15 +8914,7 @@ let complete_line u cfg fuel =
             complete_circular u cfg fuel start cands (s.e_line.buf,
               s.e_line.pos) mark O)
         | CTList ->
-          ebind
-            (match lcp_all cands with
-             | Some lcp ->
-               if (||) (Nat.ltb (sub s.e_line.pos start) (blen lcp))
-                    (Nat.eqb (length cands) (S O))
-               then ebind (completer_update u start lcp) (fun _ ->
-                      refresh_line u cfg)
-               else eret ()
-             | None -> eret ()) (fun _ ->
+          ebind (list_span_step u cfg start cands) (fun _ ->
             if Nat.ltb (S O) (length cands)
             then ebind beep (fun _ ->
                    ebind (next_cmd u cfg fuel true) (fun c ->
